@@ -40,6 +40,10 @@ def jobs(ctx: Ctx, prop: str) -> List[Dict[str, Any]]:
     for k in range(ctx.pick(6, 30)):       # near ties at several scales: a straight street against a marginally faster dog-leg
         items.append({"id": f"dogleg{base + k}", "kind": "routes", "net": "dogleg", "scale_km": [4.0, 8.0, 20.0][k % 3],
                       "seed": 36000 + base + k, "all_pairs": True, "n": 0, "snaps": 10, "weight": 1})
+    # a whole town (several thousand links) whose speeds differ by a factor of two only: whatever a router does to keep the
+    # search small on big networks must not cost optimality; near pairs, whose fastest way round leads away from the straight line
+    items.append({"id": f"town{base}", "kind": "routes", "net": "gen", "nodes": ctx.pick(800, 1500), "speeds": [30.0, 45.0, 60.0],
+                  "seed": 37000 + base, "n": ctx.pick(240, 1500), "snaps": 10, "weight": 6})
     items.append({"id": "denver", "kind": "routes", "net": "file", "path": str(SCEN_DENVER / "road_network" / "downtown_denver_network.json"),
                   "seed": 33000 + base, "n": ctx.pick(320, 2400), "snaps": ctx.pick(150, 1000), "weight": 8})
     if not ctx.quick:
